@@ -273,4 +273,41 @@ example : Stack.tryGet [.plain [("a".toList, iV 1)], .global [("a".toList, iV 2)
     [.str "a".toList] = some (iV 1) := by rfl
 example : ([] : Stack).all (C18.passes "a".toList) = true := rfl
 
+/-- a layer's own bindings -/
+def Layer.binds : Layer → Str → Bool
+  | .plain d, k | .global d, k | .index d, k | .sandbox d _, k => objContains d k
+
+/-- **A name nobody binds does not exist**, whatever it is called — also `size`, `first`, `last`,
+which objects and arrays answer as synthetic members: no frame of any kind resolves a root name it
+does not itself bind, for every path that starts with it. -/
+theorem C04_unbound_absent (st : Stack) (k : Sc) (p : List Sc)
+    (h : ∀ l ∈ st, Layer.binds l k.render = false) :
+    st.tryGet (k :: p) = none ∧ st.get (k :: p) = .err := by
+  induction st with
+  | nil => exact ⟨rfl, rfl⟩
+  | cons l r ih =>
+    have hl := h l (List.mem_cons_self)
+    have hr := ih (fun l' hl' => h l' (List.mem_cons_of_mem _ hl'))
+    cases l with
+    | plain d => simp [Layer.binds] at hl; simp [Stack.tryGet, Stack.get, pathKey, hl, hr]
+    | global d => simp [Layer.binds] at hl; simp [Stack.tryGet, Stack.get, pathKey, hl, hr]
+    | index d => simp [Layer.binds] at hl; simp [Stack.tryGet, Stack.get, pathKey, hl, hr]
+    | sandbox d q =>
+      simp [Layer.binds] at hl
+      have : objGet d k.render = none := objGet_none_of_not_contains d k.render hl
+      simp [Stack.tryGet, Stack.get, pathKey, this]
+
+/-- **A re-bound name hides the outer datum completely**: when the innermost frame binding the root
+of a path is a plain, global or counter frame, the path is resolved inside that frame's value alone
+— whatever the frames below hold for the same name (a member only the shadowed value has does not
+exist). -/
+theorem C04_shadow_hides_subpaths (d : Obj) (below below' : Stack) (k : Sc) (p : List Sc)
+    (hb : objContains d k.render = true) :
+    Stack.tryGet (.plain d :: below) (k :: p) = Stack.tryGet (.plain d :: below') (k :: p) ∧
+    Stack.tryGet (.global d :: below) (k :: p) = Stack.tryGet (.global d :: below') (k :: p) ∧
+    Stack.tryGet (.plain d :: below) (k :: p) = tryFind (.obj d) (k :: p) ∧
+    Stack.get (.plain d :: below) (k :: p) = find (.obj d) (k :: p) ∧
+    Stack.get (.global d :: below) (k :: p) = find (.obj d) (k :: p) := by
+  simp [Stack.tryGet, Stack.get, pathKey, hb]
+
 end Liquid.C04
